@@ -15,7 +15,7 @@ Lemma deliver_noerr c s cf : c <> 0%nat -> calm c cf = true -> NoErr c s -> NoEr
 Proof.
   intros Hc Hcalm (v & Hreg & He). unfold deliver. destruct (s_io s); [|exists v; auto]. cbn [negb].
   set (s' := {| s_conn := s_conn s; s_cerrs := s_cerrs s; s_chans := s_chans s; s_uuid := s_uuid s;
-                s_out := s_out s; s_io := true; s_in := cf :: s_in s |}).
+                s_out := s_out s; s_io := true; s_in := cf :: s_in s; s_sendfail := s_sendfail s |}).
   assert (Hreg' : get_chan (s_chans s') c = Some v) by exact Hreg.
   destruct cf as [k f]. cbn [fst snd] in *.
   destruct (Nat.eqb k 0) eqn:E0.
@@ -44,6 +44,7 @@ Qed.
 
 Theorem publish_confirm_outcome s c v mandatory pre tpre f tpost rest :
   c <> 0%nat -> get_chan (s_chans s) c = Some v -> conn_healthy s -> s_io s = true ->
+  s_sendfail s = false ->
   c_state v = OPEN -> c_errs v = [] -> c_req v = [] -> c_resp v = [] -> c_confirm v = true ->
   forallb (fun t => forallb (quiet c [NAck; NNack]) t) pre = true ->
   forallb (quiet c [NAck; NNack]) tpre = true ->
@@ -54,27 +55,32 @@ Theorem publish_confirm_outcome s c v mandatory pre tpre f tpost rest :
       = (s', v', RBool (fname_eqb (f_name f) NAck), rest) /\
     c_req v' = [] /\ c_resp v' = [].
 Proof.
-  intros Hc Hreg Hh Hio Hst Herr Hreq Hresp Hconf Hpre Htpre Htpost Hn.
+  intros Hc Hreg Hh Hio Hsf Hst Herr Hreq Hresp Hconf Hpre Htpre Htpost Hn.
   unfold do_publish. rewrite Hconf. unfold register. rewrite Hreg. cbv zeta.
   set (u := s_uuid s).
   set (v1 := with_rpc v (fold_left (fun rq n => req_set rq n u) [NAck; NNack] (c_req v)) (resp_set (c_resp v) u [])).
   set (s1 := {| s_conn := s_conn s; s_cerrs := s_cerrs s; s_chans := set_chan (s_chans s) c v1;
-                s_uuid := S u; s_out := s_out s; s_io := s_io s; s_in := s_in s |}).
+                s_uuid := S u; s_out := s_out s; s_io := s_io s; s_in := s_in s;
+                s_sendfail := s_sendfail s |}).
   assert (W1 : Waiting s1 c u [NAck; NNack] v1).
   { constructor.
     - exact Hc.
     - unfold s1. cbn [s_chans]. apply get_set_same.
     - exact Hh.
     - exact Hio.
+    - exact Hsf.
     - exact Hst.
     - exact Herr.
     - intros n. unfold v1. cbn [c_req with_rpc]. rewrite req_fold_get, Hreq. reflexivity.
     - unfold v1. cbn [c_resp with_rpc]. rewrite Hresp. cbn. now rewrite Nat.eqb_refl. }
   unfold chan_write. rewrite (chan_check_waiting s1 c u _ v1 W1).
-  set (s2 := fold_left (fun s0 w => write s0 c (fst w) (snd w)) [(WPublish, []); (WHeader, []); (WBody, [])] s1).
+  set (s2 := write_many s1 c [(WPublish, []); (WHeader, []); (WBody, [])]).
   set (v2 := with_pubs v1 (c_pubs v1 + 1)).
   assert (W2 : Waiting (upd s2 c v2) c u [NAck; NNack] v2).
-  { assert (W2' : Waiting s2 c u [NAck; NNack] v1) by (destruct W1; constructor; auto).
+  { assert (W2' : Waiting s2 c u [NAck; NNack] v1).
+    { destruct W1 as [A1 A2 A3 A4 A5 A6 A7 A8 A9]. unfold s2, write_many.
+      unfold s1 in *. cbn in *. rewrite !Hsf.
+      constructor; cbn; auto. }
     apply (waiting_upd s2 c u _ v1 v2 W2'); reflexivity. }
   assert (Hsh : Shape (upd s2 c v2) c (c_req v2) [u]).
   { exists v2. split; [apply W2|]. split; [reflexivity|].
